@@ -386,6 +386,9 @@ func (t *Tree) internalDelete(subpath []string, condition func(interface{}) bool
 				}
 			}
 			return len(t.leafBranch.(branch)) == 0, allLeaves
+		case nil:
+			// An empty node holds nothing to delete (Query does not report it either).
+			return false, nil
 		default:
 			if condition(t.leafBranch) {
 				// The second parameter is an empty path that will be filled as recursion
